@@ -251,4 +251,14 @@ theorem recoverSpec_some (readWal : Nat → Option (List (Nat × Nat))) (l : Lis
         · simp [hr]
         · exact h3 g hg
 
+/-- the translated `Open`: the wals are recovered, then the tables; both watermarks are marked done at the largest version found
+    in either, the next timestamp is one above it, and only then the flusher goroutine is started -/
+theorem open_table (vf mf : Bool) (walMax dbMax : Nat) :
+    GenDB.openDB vf mf walMax dbMax [] =
+      if vf || mf then none else
+      some (max walMax dbMax + 1,
+        [("os.MkdirAll", 0), ("memtable.recover (wals)", 0), ("levelManager.recover (tables)", 0),
+         ("readMark.Done", max walMax dbMax), ("commitMark.Done", max walMax dbMax), ("go db.run", 0)]) := by
+  cases vf <;> cases mf <;> rfl
+
 end DBTie
